@@ -96,6 +96,19 @@ def lmonStep (m : LMon) (op : List String) (real : String) : LMon × String :=
     else "ok"
   ({ m with cb := st' }, v)
 
+/-- `lf-trail IV NVB SAVE LATE`: after `Close()` returned no checkpoint write happens any more
+    (the periodic schedule is stopped), whatever acknowledgements arrive late (C13) -/
+def hTrail (args : List String) (real : Option String) : Option Out :=
+  match args.mapM String.toNat? with
+  | some [_, _, _, _] =>
+    some { model := "writes-after-close=0",
+           verdict := match real with
+             | none => "-"
+             | some r => if r == "writes-after-close=0" then "ok" else "FAIL C13.save-after-close" }
+  | _ => none
+
+def lifeHandlers : List (String × (List String → Option String → Option Out)) := [("lf-trail", hTrail)]
+
 def lifeLine (s : LSt) (m : LMon) (ts : List String) (real : Option String) : Option (LSt × LMon × String × String) :=
   match ts with
   | ["lf-reset", d, dyn, auto] =>
